@@ -50,6 +50,13 @@ def main():
                 r['pt'] = [float(dist(fresh()).accumulate(k, [t])[0]) for t in ts]
                 # the SAME times in another order asked of the SAME object afterwards (rotated by one position)
                 r['vec2'] = [float(x) for x in obj.accumulate(k, as_container(ts[1:] + ts[:1], case['container']))]
+            elif ep == 'deme1':
+                # marginal distribution of one population (its accumulated reward may sit on an exact plateau and rise later)
+                from numeric import get_attr
+                obj = get_attr(fresh(), case['dist_path'])
+                r['vec'] = [float(x) for x in obj.accumulate(1, cont)]
+                r['pt'] = [float(get_attr(fresh(), case['dist_path']).accumulate(1, [t])[0]) for t in ts]
+                r['vec2'] = [float(x) for x in obj.accumulate(1, as_container(ts[1:] + ts[:1], case['container']))]
             elif ep == 'sfs1':
                 obj = fresh()
                 v = obj.sfs.accumulate(1, cont)
